@@ -130,6 +130,102 @@ def _ob_append(n0: int, n1: int, n2: int, n3: int, a0: int, a1: int, a2: int, a3
 
 
 # ---------------------------------------------------------------------------
+# 1b. appends through TWO live handles of one array (every lookup hands out a new handle):
+#     three appends of k1, k2, k3 elements, each through either handle -> the extent grows by
+#     the sum and every block lands directly behind the previous one
+# ---------------------------------------------------------------------------
+def _ob_append_two_handles(n: int, k1: int, k2: int, k3: int, h1: bool, h2: bool, h3: bool, grow: int) -> bool:
+    """
+    pre: n >= 0 and k1 >= 1 and k2 >= 1 and k3 >= 1
+    pre: 0 <= grow <= 1
+    post: __return__
+    """
+    import nixio
+    f = _file()
+    with untraced():
+        blk = f.create_block("b", "t")
+    a = blk.create_data_array("da", "t", dtype=nixio.DataType.Double, shape=(n,))
+    b = blk.data_arrays["da"]
+    if tuple(a.shape) != (n,) or tuple(b.shape) != (n,) or len(a) != n:      # both handles have read the extent
+        return False
+    ds = a._h5group.group["data"]
+    del ds.node.oplog[:]
+    total = n
+    expect = []
+    if grow == 1:
+        # the extent is also changed directly through the other handle
+        b.data_extent = (n + 5,)
+        total = n + 5
+        expect.append(("resize", (total,)))
+    for k, via_b in ((k1, h1), (k2, h2), (k3, h3)):
+        data = _Blob((k,))
+        (b if via_b else a).append(data)
+        expect.append(("resize", (total + k,)))
+        expect.append(("write", total, total + k, data))
+        total = total + k
+    if tuple(a.shape) != (total,) or tuple(b.shape) != (total,) or len(a) != total or len(b) != total:
+        return False
+    log = ds.node.oplog
+    if len(log) != len(expect):
+        return False
+    for got, want in zip(log, expect):
+        if want[0] == "resize":
+            if got != want:
+                return False
+        else:
+            kind, key, written = got
+            if kind != "write" or written is not want[3] or not isinstance(key, tuple) or len(key) != 1:
+                return False
+            sl = key[0]
+            if not (isinstance(sl, slice) and sl.start == want[1] and sl.stop == want[2] and sl.step in (None, 1)):
+                return False
+    return True
+
+
+def _replay_two_handles(args):
+    import os
+    import shutil
+    import tempfile
+    import numpy as np
+    nixfake.uninstall()
+    tmp = tempfile.mkdtemp(prefix="vf_c01_")
+    try:
+        import nixio
+        if max(args["n"], args["k1"], args["k2"], args["k3"]) > 100000:
+            return None, {"skipped": "extent too large to replay"}
+        f = nixio.File.open(os.path.join(tmp, "t.nix"), nixio.FileMode.Overwrite)
+        blk = f.create_block("b", "t")
+        n = args["n"]
+        ref = np.arange(float(n))
+        a = blk.create_data_array("da", "t", dtype=nixio.DataType.Double, shape=(n,))
+        if n:
+            a.write_direct(ref)
+        b = blk.data_arrays["da"]
+        a.shape, b.shape, len(a)
+        if args["grow"] == 1:
+            b.data_extent = (n + 5,)
+            ref = np.concatenate([ref, np.zeros(5)])
+        nxt = 1000.0
+        for k, via_b in ((args["k1"], args["h1"]), (args["k2"], args["h2"]), (args["k3"], args["h3"])):
+            blkdata = np.arange(nxt, nxt + k)
+            nxt += k
+            (b if via_b else a).append(blkdata)
+            ref = np.concatenate([ref, blkdata])
+        got = np.asarray(blk.data_arrays["da"][:])
+        bad = tuple(a.shape) != ref.shape or tuple(b.shape) != ref.shape or got.shape != ref.shape or \
+            not np.array_equal(got, ref)
+        f.close()
+        return bad, {"expected_shape": list(ref.shape), "shape_a": list(a.shape) if False else None,
+                     "stored": got.tolist()[:30], "expected": ref.tolist()[:30]}
+    except Exception:  # noqa
+        import traceback
+        return True, {"raised_on_real_stack": traceback.format_exc()[-600:]}
+    finally:
+        nixfake.install()
+        shutil.rmtree(tmp, ignore_errors=True)
+
+
+# ---------------------------------------------------------------------------
 # 2. compression inheritance
 # ---------------------------------------------------------------------------
 def _ob_compression(cf: int, cb: int, ca: int, with_data: bool) -> bool:
@@ -366,6 +462,12 @@ OBLIGATIONS = [
     Ob("create_shape_dtype", _ob_create, timeout=600,
        functions=["nixio.block.Block.create_data_array", "nixio.hdf5.h5dataset.H5DataSet.__init__"],
        replay=lambda a: _real("_ob_create", a)),
+    Ob("append_through_two_handles", _ob_append_two_handles, timeout=600,
+       functions=["nixio.data_set.DataSet.append", "nixio.data_set.DataSet.data_extent",
+                  "nixio.data_set.DataSet.shape", "nixio.hdf5.h5dataset.H5DataSet.shape"],
+       replay=_replay_two_handles,
+       outside="rank 1; three appends (all extents unbounded) through either of two live handles, optionally "
+               "after a direct change of the extent through the other handle"),
     Ob("index_passthrough", _ob_passthrough, timeout=600,
        functions=["nixio.hdf5.h5dataset.H5DataSet.write_data", "nixio.hdf5.h5dataset.H5DataSet.read_data",
                   "nixio.data_array.DataArray._read_data", _S + "__setitem__", _S + "__getitem__"],
